@@ -221,6 +221,26 @@ func c17Churn(spec c17Spec, note func(string)) {
 		// an outgoing bridge call that carries several tokens (their order is part of the signed checkpoint)
 		cr := b.BridgeCallMsg(u, u.Acc(), sdk.NewCoins(sdk.NewCoin(tok.Base, sdkmath.NewInt(int64(3+rng.IntN(9)))), sdk.NewCoin(tok2.Base, sdkmath.NewInt(int64(3+rng.IntN(9))))), c.Users[1].Hex(), []byte{1}, nil)
 		note(fmt.Sprintf("step %d: two-token bridge call: ok=%v %s", step, cr.OK(), short(cr.ErrString())))
+		if step%3 == 2 {
+			// several outgoing bridge calls made in one block (equal timeouts), each with a refund address that has
+			// no account yet; a later event reports a height past that timeout and they are all refunded at once
+			for k := 0; k < 5; k++ {
+				fresh := chain.DeriveKey(spec.Seed, "c17-refund", step*10+k)
+				b.BridgeCallMsg(u, fresh.Acc(), sdk.NewCoins(sdk.NewCoin(tok.Base, sdkmath.NewInt(int64(2+k)))), c.Users[1].Hex(), []byte{2}, nil)
+			}
+			c.Next()
+			var last uint64
+			for _, oc := range b.Calls() {
+				if oc.Timeout > last {
+					last = oc.Timeout
+				}
+			}
+			if last > b.ExtHeight {
+				b.ExtHeight = last + 1
+			}
+			_, derr := b.Deposit(c.Users[3], tok, sdkmath.NewInt(7), u.Hex(), u.Acc(), "")
+			note(fmt.Sprintf("step %d: five bridge calls of one block timed out together (event at external height %d): %v, calls left %d", step, b.ExtHeight, derr, len(b.Calls())))
+		}
 		c.Next()
 		// re-admit everybody, the dropped ones add delegate to come back online
 		r = b.SetOracleList(b.Oracles)
